@@ -27,7 +27,8 @@ type KnownFinding struct {
 	Property string `json:"property"`
 	Func     string `json:"func"`             // canonical function name
 	Kind     string `json:"kind"`             // obligation kind
-	Clause   string `json:"clause,omitempty"` // substring of the obligation's stable detail (e.g. "ensures.3", "field:Watch")
+	Clause   string `json:"clause,omitempty"` // substring of the obligation's stable detail (e.g. "field:Watch")
+	Text     string `json:"text,omitempty"`   // substring of the clause text (robust against renumbering of clauses)
 	Case     string `json:"case,omitempty"`   // spec expression: the failing inputs; obligation is re-posed with !case
 	What     string `json:"what"`
 	Fixed    string `json:"fixed,omitempty"` // "fixed: property=<id> <commit> <what>": suppresses nothing
@@ -91,6 +92,9 @@ func (k *KnownFinding) matches(o *Obligation, prop string) bool {
 		return false
 	}
 	if k.Clause != "" && !strings.Contains(o.stableKey(), k.Clause) {
+		return false
+	}
+	if k.Text != "" && !strings.Contains(o.Text, k.Text) {
 		return false
 	}
 	return true
@@ -184,6 +188,12 @@ type PropResult struct {
 // CheckProperty generates and discharges every obligation tagged with the property.
 func (w *World) CheckProperty(prop, tier string, timeoutMs int, dump string, verbose bool) *PropResult {
 	r := &PropResult{Prop: prop, Tier: tier, W: w}
+	tStart := time.Now()
+	defer func() {
+		if os.Getenv("GVC_SLOW") != "" {
+			fmt.Printf("TIMING CheckProperty %.1fs\n", time.Since(tStart).Seconds())
+		}
+	}()
 	known, err := loadKnown(filepath.Join(VerifDir, "KNOWN_FINDINGS.jsonl"))
 	if err != nil {
 		r.GenErrors = append(r.GenErrors, err.Error())
@@ -228,7 +238,34 @@ func (w *World) CheckProperty(prop, tier string, timeoutMs int, dump string, ver
 			}
 		}
 	}
-	SolveAll(r.Items, SolveOpts{TimeoutMs: timeoutMs, AllSolvers: tier == "thorough", DumpDir: dump})
+	tGen := time.Now()
+	// Obligations covered by a known finding are expected to fail, which costs every solver its full timeout.
+	// In the quick tier they are first posed with the known failing case excluded; if that discharges, the
+	// original obligation only gets a short budget (enough to notice that it has started to hold).
+	short := map[*Obligation]bool{}
+	if tier != "thorough" {
+		for _, it := range r.Items {
+			for i := range r.Known {
+				k := &r.Known[i]
+				if k.matches(it.O, prop) {
+					short[it.O] = true
+				}
+			}
+		}
+	}
+	var normal, shortItems []SolveItem
+	for _, it := range r.Items {
+		if short[it.O] {
+			shortItems = append(shortItems, it)
+		} else {
+			normal = append(normal, it)
+		}
+	}
+	SolveAll(normal, SolveOpts{TimeoutMs: timeoutMs, AllSolvers: tier == "thorough", DumpDir: dump})
+	SolveAll(shortItems, SolveOpts{TimeoutMs: 1500, DumpDir: dump, NoRelax: true})
+	if os.Getenv("GVC_SLOW") != "" {
+		fmt.Printf("TIMING solve %.1fs for %d items\n", time.Since(tGen).Seconds(), len(r.Items))
+	}
 	// known findings: re-pose failing obligations without the known case
 	for _, it := range r.Items {
 		o := it.O
@@ -251,6 +288,10 @@ func (w *World) CheckProperty(prop, tier string, timeoutMs int, dump string, ver
 				o.Known = k.What
 				break
 			}
+		}
+		if o.Known == "" && short[o] {
+			// not explained by the known finding: give it the full treatment before calling it a violation
+			solveOne(it, SolveOpts{TimeoutMs: timeoutMs, DumpDir: dump})
 		}
 	}
 	return r
@@ -342,6 +383,13 @@ func (r *PropResult) Report() int {
 			}
 			nViol++
 			violations = append(violations, o)
+		}
+	}
+	if os.Getenv("GVC_SLOW") != "" {
+		for _, o := range all {
+			if o.Ms > 1000 {
+				fmt.Printf("SLOW %dms %s %s (%s)\n", o.Ms, o.Status, o.Name, o.Solver)
+			}
 		}
 	}
 	for _, ge := range r.GenErrors {
